@@ -1345,3 +1345,31 @@ def _b_concat_lines(ctx):
                        'every list of 2..%d parts with texts from %r, parts of the kinds %r (uniform and in rotation)'
                        % (max_parts, list(T), list(K)), cases, True, failures,
                        note='compared with split_nl of the concatenated texts; line-wise reading is done twice')
+
+
+# ------------------------------------------------------------------------------ facts proved in C05 that C14 rests on too
+# "One value however it is consumed" also concerns (a) the line-wise reading of a `replace`d text: the re-splitting
+# generator `_lines_iterator_from_replacements` must yield exactly the lines of the text that as_str / the file
+# give (seeded C14-s4), and (b) the four strategies of `equals`, three of which read a prefix of one side
+# (`read_lines`, `_min_num_chars_to_read`): all four must decide the same thing, equality of the two texts
+# (seeded C14-s6).  Their contracts live in contracts/C05_text.py and carry C14 as well: the C14 check re-proves
+# them on the current tree.  (`_do_compare`, with the known finding, is listed for both properties already.)
+_SHARED_WITH_C05 = (
+    'replace.impl:_lines_iterator_from_replacements',
+    ':read_lines_as_str__w_minimum_num_chars',
+    'equality:_min_num_chars_to_read',
+    'equality:_ApplierWExtDepsCases._ext_deps__none',
+    'equality:_ApplierWExtDepsCases._ext_deps__only_actual',
+    'equality:_ApplierWExtDepsCases._ext_deps__only_expected',
+    'equality:_ApplierWExtDepsCases._freeze_and_read_expected_header',
+    'equality:_ApplierWExtDepsCases.match',
+    'equality:_ExtDepsOfBothHandler.match',
+)
+
+
+def _share_with_c05():
+    from contracts.common import share_contracts
+    share_contracts('C14', 'contracts.C05_text', lambda q: any(q.endswith(s) for s in _SHARED_WITH_C05))
+
+
+M.after_load = _share_with_c05
